@@ -74,7 +74,7 @@ AddSub(z, x, y, flip) ==
       pid  == Pid2(x, y, "C01")
   IN CASE x.form = "finite" /\ y.form = "finite" ->
             LET r == SumFinite(x.neg, x.dig, CoefExp(x), yneg, y.dig, CoefExp(y), p, z.mode)
-            IN Ok(r, p, z.mode, IF r.form = "zero" /\ r.acc = Exact THEN {"C01", "C04"} ELSE pid)   \* exact cancellation: the zero-sum sign rule
+            IN Ok(r, p, z.mode, IF r.form = "zero" THEN {"C01", "C04"} ELSE pid)   \* a zero sum: the zero-sum sign rule (exact: +0, or -0 under ToNegativeInf; underflowed: the sign of the exact sum)
        [] x.form = "inf" /\ y.form = "inf" /\ x.neg # yneg -> NaN(p, z.mode)
        [] x.form = "zero" /\ y.form = "zero" ->
             Ok(Special("zero", ZeroSumNeg(x.neg, yneg, z.mode)), p, z.mode, pid)
@@ -128,7 +128,7 @@ OpFMA(z, x, y, u) ==
             IN CASE u.form = "inf"  -> Ok(Special("inf", u.neg), p, z.mode, pid)
                  [] u.form = "zero" -> Ok(RoundTo(pneg, N, One, e, p, z.mode), p, z.mode, pid)
                  [] OTHER -> LET r == SumFinite(pneg, N, e, u.neg, u.dig, CoefExp(u), p, z.mode)
-                             IN Ok(r, p, z.mode, IF r.form = "zero" /\ r.acc = Exact THEN {"C03", "C04"} ELSE pid)
+                             IN Ok(r, p, z.mode, IF r.form = "zero" THEN {"C03", "C04"} ELSE pid)
 
 (* Mul followed by Add through a temporary of the receiver's precision and mode: *)
 (* what FMA must differ from exactly when the intermediate rounding matters       *)
